@@ -3,6 +3,7 @@
          the result of cmp, ne applies `!` to the result of eq; xcmp returns -1/0/1 consistently
   R19.2  component-wise derivation for tuples: arity mismatch is a bind error before components are paired; components are
          paired by one forward zip (no reversal) and the loop stops at the first deciding component
+  R19.5  the width handed to FillSpecs::fillers (format padding) derives from code-point counts, not byte lengths (unit analysis, R18.5)
   R19.4  natural-run detection of the merge sort: the reversed run extends while is_less, the kept run while !is_less
   R19.3  fail-safe sorting (typestate on MIR of util::trysort / util::try_heap): between a bitwise duplication and the
          construction of the drop guard that undoes it there is no comparator call and no return; guards implement Drop;
@@ -234,3 +235,9 @@ def run(ctx):
         if not found:
             r4.fail('anchor/run-detection', TS, 'the run-detection branch (if descending {extend; reverse} else {extend}) was not found in try_sort')
     r4.need(1)
+
+    # ---------------- R19.5 padding / width arithmetic counts code points (shared unit analysis of R18.5)
+    from . import c18
+    r5 = ctx.rule('R19.5', 'format padding (fillers) is computed from code-point counts, never from byte lengths')
+    c18.unit_discipline(ctx, r5, only_sinks=('fillers',))
+    r5.need(3)
